@@ -8,7 +8,33 @@ ENG_NOTE = 'Trusted: Coq kernel; T1 translator (harness/cmd/xlate, go/ast) repor
 ENG_TECH = 'Coq proof over an IR regenerated from engine/gengine.go by a go/ast translator (per-run obligation gen = hand, then hand_sound: run_prog = spec for every configuration; traces quantify over all interleavings) + trace/err/result correspondence under a gate adversary evaluated inside Coq'
 POOL_NOTE = 'Trusted: Coq kernel; T3 translator (harness/cmd/xlate pool.go, go/ast) reporting the statement shapes of engine/gengine_pool.go; sync.Mutex / the go statement per the Go memory model; the pool harness (reflection snapshots, gates, globally sequenced events) and python scenario generator; liveness needs a fair scheduler (assumption). No axioms.'
 POOL_TECH = 'Coq proof (transition-system invariants by induction over all action sequences / histories) + go/ast translator obligations (wrapper and update shapes) + scenario correspondence with gate-held requests evaluated inside Coq'
+LANG_NOTE = "Trusted: Coq kernel; the hand-written interpreter model (Lang/Store.v, Sem.v) whose fidelity is established only by the correspondence run (outcome class, value, cited positions, calls with dynamic argument types, whole host store, and the listener-built tree compared node by node with the grammar's reading of the generated text); the assumed table of reflect primitives; IEEE-754 binary64 semantics of Go's float64 (the model runs on Coq primitive floats; theorems quantify over any float_ops); python float() = strconv.ParseFloat on the literals used. No axioms in the theorems (the primfo instance shows Coq's primitive-float constants in Print Assumptions of cases files only)."
+LANG_TECH = 'Coq proof over a hand-written executable model of the interpreter (operators, expression nodes, statements, data context) + model/implementation correspondence on generated rule texts evaluated by vm_compute inside Coq, including listener-tree / position comparison'
 CLAIMS = {
+ "C01": {
+  "text": "Theorems (Props/C01.v, 49, closed, for every float_ops): integer + - * wrap at 64 bits (mixed signed/unsigned included), / truncates, division by zero of any class fails, a float operand promotes to float64, + concatenates strings, ill-typed arithmetic never yields a value; integer comparisons are exact over all of Z (signed against unsigned included), float comparisons use the float order, strings lexicographic, booleans only == / !=; && || ! only on booleans; every expression node yields a value only if all its operands did (both operands always evaluated, left first) and errors propagate; @name/@id/@desc/@sal. Precedence and left-associativity are tied to the real parser by correspondence: all operator pairs and 150 (thorough: all) triples printed without parentheses, the listener's tree compared with the grammar's reading; plus 14x14 operand kinds x operators at boundary values, random trees. Partial only in that the grammar reading (flat_to_tree) lives in the generator, not in a proved parser.",
+  "note": LANG_NOTE,
+  "technique": LANG_TECH},
+ "C02": {
+  "text": 'Theorems (Props/C02.v, 43, closed): statements run in order and nothing after a non-normal outcome has any effect; exactly the first true if/else-if branch runs (else otherwise); for: condition before every iteration, step after a normal iteration AND after continue (same continuation), break leaves only the innermost loop, cut off after maxExecuteNum condition evaluations; forRange visits each key once in order (inductive visits + totality); return propagates unchanged out of every construct; compound assignment is read-modify-write; locals live in one flat map; the returned-flag only comes from a return whose expression evaluated (rule-level half of C11). Tie: 516 programs (jump kind x nesting position matrix, else-if truth vectors, the cap, compound assignment on 8 target kinds, random trees) with Mark calls making the path observable.',
+  "note": LANG_NOTE,
+  "technique": LANG_TECH},
+ "C10": {
+  "text": 'Partial. Proved (Props/C10.v, 5, closed, for any front end): an entry point that inspects all diagnostics before installing is all-or-nothing, installs exactly the C08 replacement/merge on success, and any two such entry points accept exactly the same texts; duplicate names are rejected. Per-run obligation: the five entry points regenerated from the source (xlate compile) are all of that shape (obligations/GenCompileOk.v). Observed, not proved: totality (no panic / crash over valid, token-mutated, lexer-noise and arbitrary-byte streams, 260 texts x 5 entry points quick), pairwise agreement, exact state equality on reject.',
+  "note": LANG_NOTE,
+  "technique": LANG_TECH},
+ "C15": {
+  "text": 'Theorems (Props/C15.v, 8, closed): every rule execution starts from an empty local map; an unassigned local is undefined; rules of a call share only the injected objects and the call trace (run_rules); the outcome of a block does not depend on locals shadowed by injected names or foreign to it (simulation over every evaluator function). Tie: 128 multi-rule texts (locals of an earlier rule read by a later one, same name / different types, read-before-write, shared injected data, the same rule set executed twice on one engine, random rule sets sharing local names) compared inside Coq; pool scenarios with the same rule executed by max requests held between the write and the read of its local.',
+  "note": LANG_NOTE,
+  "technique": LANG_TECH},
+ "C19": {
+  "text": "Partial. Proved (Props/C19.v, 12, closed): for every well-formed trace (mutex / RWMutex exclusion, fork/join) in which every access to a variable holds its guard — a mutex; the two-lock RW discipline (writes hold the write side and the update mutex, reads either); or confinement to the forking goroutine before fork / after join with forked goroutines under a mutex — any two conflicting accesses are ordered by happens-before. Established by translator + observation: T2 regenerates the table of all 242 accesses to gengine's own shared state with the mutexes syntactically held; obligation race_ok gen_accesses = true (Race/Checker.v discipline, constructors and caller-held locks explicit); cross-checked by the scenario set under the Go race detector (about a million calls quick).",
+  "note": LANG_NOTE,
+  "technique": LANG_TECH},
+ "C20": {
+  "text": "Theorems (Props/C20.v, 13, closed): every position cited by a failed block / rule is the position of a construct of that rule's body (mutual induction over all evaluator functions); arithmetic faults, comparison / logic type faults, failing or panicking calls and failing assignments cite their own construct first. That a node's position is the 1-based line / 0-based column of its first token is tied by correspondence: every node position of every generated text (random layouts: blank lines, comments, tabs, several rules) is compared with the listener's tree, and every (line, column) in the error text with the model's citation list (193 single-fault programs quick).",
+  "note": LANG_NOTE,
+  "technique": LANG_TECH},
  "C06": {
   "text": "Theorems (Props/C06.v, 6, closed): over EVERY sequence of atomic pool steps (Get / Inject / Done / async Put) by any number of clients, request data in an instance belongs to the request holding it, a request resolves only its own data (plus the shared api table), nothing of a request is left once its deferred clean-up ran, idle instances are clean, a later request on the same instance sees nothing. Tie: T3 (every one of the 24 wrappers: cleared test, prepare, deferred [delete exactly the injected keys; release] registered before the single engine call, hands back that engine's map) + 21 scenarios (all 24 wrapper methods, pools (1,2),(2,3),(2,5)) with max requests held inside rules while every instance's data context is read by reflection; echo values and result maps re-read at the end.",
   "note": POOL_NOTE,
